@@ -42,6 +42,8 @@ func init() {
 			{"C01.R9", "q", "shared: explicit revisions compared on absolute values", c01r9},
 			{"C09.R8", "q", "shared: buffer copies are exact", c09r8},
 			{"C10.R2", "q", "shared: records are handed out decompressed", c10r2},
+			{"C14.R17", "q", "shared: collision table compare-and-set is one critical section", c14r17},
+			{"C14.R14", "q", "shared: split dump discipline (file published before the buffer is dropped)", c14r14},
 		},
 	})
 }
@@ -358,10 +360,19 @@ var guardTable = []guardSpec{
 	{"store.HTree.levels", lkTree, false},
 	{"store.HTree.leafs", lkTree, false},
 	{"store.HTree.ni", lkTree, false},
+	{"store.Node.hash", lkTree, false},
+	{"store.Node.count", lkTree, false},
+	{"store.Node.isHashUpdated", lkTree, false},
 	{"store.CollisionTable.Items", lkCT, false},
 	{"store.dataChunk.wbuf", lkChunk, false},
 	{"store.GCMgr.stat", lkGC, false},
 	{"store.hintChunk.splits", lkHChunk, true},
+}
+
+// functions that work on the store-level tree, which has its own lock
+var guardAltLock = map[string]string{
+	"store.HStore.updateNodesUpper": "store.HStore.htreeLock",
+	"store.HStore.ListUpper":        "store.HStore.htreeLock",
 }
 
 var guardExceptions = map[string]string{
@@ -369,8 +380,6 @@ var guardExceptions = map[string]string{
 	"store.HTree.load":                 "runs in Bucket.open before the tree is published (bkt.htree = htree)",
 	"store.HTree.dump":                 "open/close time only; reads after ListTop",
 	"store.HTree.release":              "hot-unload after the bucket was taken out of service",
-	"store.HStore.updateNodesUpper":    "upper tree is guarded by HStore.htreeLock (held by ListUpper)",
-	"store.HStore.ListUpper":           "upper tree is guarded by HStore.htreeLock",
 	"store.HStore.NumKey":              "statistic read of a count, tolerated race",
 	"store.dataChunk.getDiskFileSize":  "called under flushLock by the only flusher; racy length read is compared fail-stop",
 	"store.dataChunk.Clear":            "GC: source chunk is below the head and has no writer",
@@ -440,6 +449,9 @@ func c04l7(c *Ctx) {
 				}
 				nsite++
 				h, ls := holds(c, f, se, g.lock)
+				if alt, has := guardAltLock[f.Key]; has && !h {
+					h, ls = holds(c, f, se, alt)
+				}
 				if !h {
 					nbad++
 					if badPos == "" {
